@@ -11,13 +11,15 @@ from vk import common
 PROPERTY = "C18"
 LEVEL = "exploration"
 RULE = ("exhaustive: 1..4 caches x all 3^n assignments of {miss, hit, hit with a falsy non-None value} x reads {get, gets, get_many, gets_many} and writes {set, add, "
-        "replace, append, prepend, cas, delete, incr, decr, touch, flush_all} x default and non-default arguments x order given at construction or changed afterwards through .caches; plus sessions of 12 calls on one FallbackClient while the caches' contents change; plus real "
+        "replace, append, prepend, cas, delete, incr, decr, touch, flush_all} x default and non-default arguments x order given at construction or changed afterwards through .caches; plus sessions of 12 calls on one FallbackClient while the caches' contents change and the order is reconfigured; cas with a token obtained through gets/gets_many from each cache; writes while the primary raises; two threads x one call each on a fresh FallbackClient (every schedule with <= 2, thorough 3, preemptions); plus real "
         "Clients over reference servers as caches (get/get_many/gets_many and all writes). Non-trivial = >=2 caches; distinct by the full case.")
 ASSUMPTIONS = [
     "'the configured order' is the current content of the public caches attribute (inserting a new primary, assigning a new list, "
     "dropping the old primary after construction are configuration; the class reads self.caches at every call)",
     "a scripted cache reports a miss as None (get/gets) or {} (multi-key) and a hit as a unique non-None object / non-empty dict",
     "what an all-miss multi-key read returns is only required to be empty (falsy)",
+    "a write whose primary raises may pass the error on or not (not judged); it must not reach another cache",
+    "two threads sharing one FallbackClient (its caches being thread-safe clients) are each owed the statement for their own call; schedules are those of the deterministic scheduler at line granularity inside fallback.py",
     "FallbackClient.gets over real Clients is not judged: Client.gets reports a miss as (None, None), which fallback.py treats as a hit; the statement's observation point is scripted caches",
 ]
 MIN_NONTRIVIAL = {"quick": 1000, "thorough": 1000}
